@@ -7,13 +7,14 @@ Local Open Scope list_scope.
 
 (* ---------- identifiers ---------- *)
 Definition special (c : ascii) : bool :=
-  Ascii.eqb c "<" || Ascii.eqb c ">" || Ascii.eqb c "(" || Ascii.eqb c ")" || Ascii.eqb c "," || is_space c || Ascii.eqb c "&".
+  Ascii.eqb c "<" || Ascii.eqb c ">" || Ascii.eqb c "(" || Ascii.eqb c ")" || Ascii.eqb c "," || is_space c || Ascii.eqb c "&"
+  || Ascii.eqb c "[" || Ascii.eqb c "]".
 Definition plain (c : ascii) : Prop := special c = false.
 Definition ident (n : str) : Prop := n <> [] /\ Forall plain n.
 
 Lemma plain_facts c : plain c ->
   Ascii.eqb c "<" = false /\ Ascii.eqb c ">" = false /\ Ascii.eqb c "(" = false /\ Ascii.eqb c ")" = false /\
-  Ascii.eqb c "," = false /\ is_space c = false /\ Ascii.eqb c "&" = false.
+  Ascii.eqb c "," = false /\ is_space c = false /\ Ascii.eqb c "&" = false /\ Ascii.eqb c "[" = false /\ Ascii.eqb c "]" = false.
 Proof. unfold plain, special. intros H.
   repeat (apply orb_false_elim in H as [H ?]). repeat split; auto. Qed.
 
@@ -224,6 +225,87 @@ Proof. intros Ht Hl Hp Hn. unfold wrapped. rewrite Ht. rewrite starts_tag by aut
 Lemma wrapped_ident (tag : string) p n : L tag = p ++ ["<"] -> Forall plain n -> wrapped tag n = None.
 Proof. intros Ht Hn. unfold wrapped. rewrite Ht. rewrite starts_tag_none by auto. reflexivity. Qed.
 
+(* ---------- transparency of printed types for the depth-aware splitter ---------- *)
+Definition transp (k : Z) (w : str) : Prop :=
+  forall d pre r, (k <= d)%Z -> top_go d pre (w ++ r) = top_go d (rev w ++ pre) r.
+
+Lemma transp_mono k k' w : (k <= k')%Z -> transp k w -> transp k' w.
+Proof. unfold transp; intros Hk H d pre r Hd; apply H; lia. Qed.
+Lemma transp_nil k : transp k [].
+Proof. red; intros; reflexivity. Qed.
+Lemma transp_app k a b : transp k a -> transp k b -> transp k (a ++ b).
+Proof. unfold transp; intros Ha Hb d pre r Hd.
+  rewrite <- app_assoc, Ha, Hb by auto. rewrite rev_app_distr, <- app_assoc. reflexivity. Qed.
+Lemma plain_step c d pre s : plain c -> top_go d pre (c :: s) = top_go d (c :: pre) s.
+Proof. intros H. apply plain_facts in H as (H1 & H2 & H3 & H4 & H5 & H6 & H7 & H8 & H9).
+  cbn [top_go]. unfold opener, closer. rewrite H1, H2, H3, H4, H5, H8, H9. reflexivity. Qed.
+Lemma transp_plain k w : Forall plain w -> transp k w.
+Proof. induction 1 as [|c w Hc Hw IH]; [apply transp_nil|].
+  red; intros d pre r Hd. change ((c :: w) ++ r) with (c :: (w ++ r)).
+  rewrite plain_step by auto. rewrite IH by auto. simpl. rewrite <- app_assoc. reflexivity. Qed.
+Lemma transp_sep : transp 1 (L ", ").
+Proof. red; intros d pre r Hd. cbn. destruct (d =? 0)%Z eqn:E; [apply Z.eqb_eq in E; lia|]. reflexivity. Qed.
+Lemma transp_space k w : transp k w -> transp k (" " :: w).
+Proof. intros H d pre r Hd. change ((" " :: w) ++ r) with (" " :: (w ++ r)). cbn [top_go]. cbn [opener closer Ascii.eqb Bool.eqb orb andb].
+  rewrite H by auto. simpl. rewrite <- app_assoc. reflexivity. Qed.
+Lemma transp_join ws : Forall (transp 0) ws -> transp 1 (join (L ", ") ws).
+Proof. induction 1 as [|w ws Hw Hws IH]; [apply transp_nil|].
+  destruct ws as [|w' ws'].
+  - rewrite join_one. eapply transp_mono; [|eauto]; lia.
+  - rewrite join_cons2. apply transp_app. eapply transp_mono; [|eauto]; lia.
+    apply transp_app. apply transp_sep. apply IH. Qed.
+Lemma transp_wrap o c body : opener o = true -> closer c = true -> opener c = false ->
+  transp 1 body -> transp 0 (o :: body ++ [c]).
+Proof. intros Ho Hc Hoc Hb. red; intros d pre r Hd.
+  change ((o :: body ++ [c]) ++ r) with (o :: ((body ++ [c]) ++ r)). cbn [top_go]. rewrite Ho.
+  rewrite <- app_assoc. rewrite Hb by lia. cbn [app top_go]. rewrite Hoc, Hc.
+  replace (d + 1 - 1)%Z with d by lia.
+  cbn [rev]. rewrite rev_app_distr. cbn [rev app]. rewrite <- !app_assoc. reflexivity. Qed.
+
+Lemma Forall_map_tts (P : str -> Prop) l :
+  Forall (fun t => wf t -> P (tts t)) l -> Forall wf l -> Forall P (map tts l).
+Proof. induction 1; intros Hw; inversion Hw; subst; simpl; constructor; auto. Qed.
+
+Lemma tts_transp t : wf t -> transp 0 (tts t).
+Proof. induction t as [n args IH|t IH|l IH] using rty_ind'; intros Hw; simpl in Hw.
+  - destruct Hw as ((Hn & Hp) & _ & Ha). apply wf_list in Ha.
+    destruct args as [|a args]. { rewrite tts_path_nil. apply transp_plain; auto. }
+    rewrite tts_path_cons.
+    apply transp_app. apply transp_plain; auto.
+    apply transp_wrap; auto. apply transp_join. apply Forall_map_tts; auto.
+  - rewrite tts_ref.
+    red; intros d pre r Hd. change (("&" :: tts t) ++ r) with ("&" :: (tts t ++ r)).
+    cbn [top_go]. cbn [opener closer Ascii.eqb Bool.eqb orb andb].
+    rewrite (IH Hw) by lia. simpl. rewrite <- app_assoc. reflexivity.
+  - apply wf_list in Hw. destruct l as [|a l].
+    + rewrite tts_unit. red; intros d pre r Hd. cbn. replace (d + 1 - 1)%Z with d by lia. reflexivity.
+    + rewrite tts_tuple.
+      apply transp_wrap; auto. apply transp_join. apply Forall_map_tts; auto.
+Qed.
+
+Lemma top_none w : transp 0 w -> find_top w = None.
+Proof. intros H. unfold find_top. rewrite <- (app_nil_r w). rewrite H by lia. reflexivity. Qed.
+Lemma top_first w r : transp 0 w -> find_top (w ++ "," :: r) = Some (w, r).
+Proof. intros H. unfold find_top. rewrite H by lia. cbn. rewrite app_nil_r, rev_involutive. reflexivity. Qed.
+
+Lemma join_space_cons (w : str) ws : " " :: join (L ", ") (w :: ws) = join (L ", ") ((" " :: w) :: ws).
+Proof. destruct ws; reflexivity. Qed.
+Lemma split_top_join : forall ws w fuel, transp 0 w -> Forall (transp 0) ws -> List.length ws < fuel ->
+  split_top fuel (join (L ", ") (w :: ws)) = w :: map (cons " ") ws.
+Proof. induction ws as [|w' ws IH]; intros w fuel Hw Hws Hf; (destruct fuel as [|f]; [lia|]).
+  - rewrite join_one. cbn [split_top]. rewrite top_none by auto. reflexivity.
+  - rewrite join_cons2. cbn [L list_ascii_of_string app]. cbn [split_top]. rewrite top_first by auto.
+    inversion Hws; subst. rewrite join_space_cons. rewrite IH; auto.
+    + apply transp_space; auto.
+    + simpl in Hf. lia.
+Qed.
+Lemma join_len_ge (w : str) ws : List.length ws <= List.length (join (L ", ") (w :: ws)).
+Proof. revert w. induction ws as [|w' ws IH]; intros w; [simpl; lia|].
+  rewrite join_cons2, !app_length. specialize (IH w'). simpl in *. lia. Qed.
+Lemma split_top_level_join w ws : transp 0 w -> Forall (transp 0) ws ->
+  split_top_level (join (L ", ") (w :: ws)) = w :: map (cons " ") ws.
+Proof. intros Hw Hws. unfold split_top_level. apply split_top_join; auto. pose proof (join_len_ge w ws). lia. Qed.
+
 (* ---------- intended structure ---------- *)
 Local Open Scope string_scope.
 Fixpoint sem (t : rty) : tstruct :=
@@ -279,15 +361,15 @@ Lemma parse_S f s0 : parse (S f) s0 =
     match wrapped "Option<" s with Some inner => option_map TOpt (parse f inner) | None =>
     match wrapped "Result<" s with
     | Some inner =>
-        let ok := match find_char ","%char inner with Some i => trim (firstn i inner) | None => inner end in
+        let ok := match find_top inner with Some (a, _) => trim a | None => inner end in
         option_map TRes (parse f ok)
     | None =>
     match wrapped "Vec<" s with Some inner => option_map TArr (parse f inner) | None =>
     match (match wrapped "HashMap<" s with
-           | Some inner => match split2_angle inner with Some kv => Some kv | None => None end
+           | Some inner => match top2 inner with Some kv => Some kv | None => None end
            | None => None end),
           (match wrapped "BTreeMap<" s with
-           | Some inner => split2_angle inner
+           | Some inner => top2 inner
            | None => None end) with
     | Some (k, v), _ | None, Some (k, v) =>
         match parse f k, parse f v with Some k', Some v' => Some (TMap k' v') | _, _ => None end
@@ -298,7 +380,7 @@ Lemma parse_S f s0 : parse (S f) s0 =
     if starts (L "(") s && ends_with ")"%char s then
       let inner := mid 1 1 s in
       if all_blank inner then Some (TPrim (L "void"))
-      else option_map TTuple (mapM (parse f) (map trim (split_naive ","%char inner)))
+      else option_map TTuple (mapM (parse f) (map trim (split_top_level inner)))
     else match prim_of s with Some p => Some (TPrim p) | None => Some (TCustom s) end
     end end end end end.
 Proof. reflexivity. Qed.
@@ -321,15 +403,13 @@ Ltac names_false :=
   end.
 
 Theorem parse_tts_faithful : forall t, wf t ->
-  kf_result_ok_has_comma t = false -> kf_tuple_elem_has_comma t = false ->
   forall fuel, height t < fuel -> parse fuel (tts t) = Some (sem t).
 Proof.
-  induction t as [n args IH|t IH|l IH] using rty_ind'; intros Hw Hkr Hkt fuel Hf;
+  induction t as [n args IH|t IH|l IH] using rty_ind'; intros Hw fuel Hf;
     (destruct fuel as [|f]; [lia|]); rewrite parse_S; cbv zeta;
     rewrite (trim_tight _ (tts_tight _ Hw)).
   - (* path *)
-    simpl in Hw, Hkr, Hkt. destruct Hw as ((Hne & Hp) & (Har1 & Har2 & Har3) & Ha). apply wf_list in Ha.
-    apply orb_false_elim in Hkr as [Hkr0 Hkr]. apply existsb_false_Forall in Hkr. apply existsb_false_Forall in Hkt.
+    simpl in Hw. destruct Hw as ((Hne & Hp) & (Har1 & Har2 & Har3) & Ha). apply wf_list in Ha.
     destruct n as [|c n']; [congruence|]. set (n := c :: n') in *.
     assert (Hc : plain c) by (inversion Hp; auto).
     destruct args as [|a rest].
@@ -363,15 +443,11 @@ Proof.
         rewrite sem_path_cons. unfold is_name. rewrite EO. reflexivity. }
       destruct (str_eqb n (L "Result")) eqn:ER.
       { apply str_eqb_eq in ER.
-        assert (Hma : multi a = false).
-        { unfold is_name in Hkr0. rewrite ER in Hkr0. rewrite str_eqb_refl in Hkr0. simpl in Hkr0. exact Hkr0. }
-        pose proof (multi_nocomma a Hwa Hma) as Hnc.
-        assert (Hok : (match find_char "," J with Some i => trim (firstn i J) | None => J end) = tts a).
+        assert (Hok : (match find_top J with Some (a0, _) => trim a0 | None => J end) = tts a).
         { unfold J. destruct rest as [|e rest'].
-          - simpl map. rewrite join_one. rewrite find_char_none by auto. reflexivity.
+          - simpl map. rewrite join_one. rewrite top_none by (apply tts_transp; auto). reflexivity.
           - change (map tts (a :: e :: rest')) with (tts a :: tts e :: map tts rest'). rewrite join_cons2.
-            cbn [L list_ascii_of_string app]. rewrite find_char_nocomma by auto.
-            rewrite firstn_app, firstn_all, Nat.sub_diag. simpl firstn. rewrite app_nil_r.
+            cbn [L list_ascii_of_string app]. rewrite top_first by (apply tts_transp; auto).
             apply trim_tight. apply tts_tight; auto. }
         rewrite Hok, HIa.
         rewrite sem_path_cons. unfold is_name. rewrite EO.
@@ -382,24 +458,25 @@ Proof.
         subst rest. unfold J. simpl map. rewrite join_one. rewrite HIa.
         rewrite sem_path_cons. unfold is_name. rewrite EO, ER.
         replace (str_eqb n (L "Vec")) with true by (symmetry; apply str_eqb_eq; exact EV). reflexivity. }
-      assert (Hmapcase : forall v, rest = [v] -> multi a = false ->
-                split2_angle J = Some (tts a, tts v) /\ parse f (tts v) = Some (sem v)).
-      { intros v -> Hma. split.
-        - unfold J. change (map tts [a; v]) with [tts a; tts v]. rewrite join_cons2, join_one.
-          inversion Hwrest; subst. apply split2_kv; auto.
+      assert (Hmapcase : forall v, rest = [v] ->
+                top2 J = Some (tts a, tts v) /\ parse f (tts v) = Some (sem v)).
+      { intros v ->. split.
+        - unfold J, top2. change (map tts [a; v]) with [tts a; tts v]. rewrite join_cons2, join_one.
+          inversion Hwrest; subst. cbn [L list_ascii_of_string app]. rewrite top_first by (apply tts_transp; auto).
+          rewrite trim_tight by (apply tts_tight; auto). rewrite trim_sp_tight by (apply tts_tight; auto). reflexivity.
         - inversion HIrest; auto. }
       destruct (str_eqb n (L "HashMap")) eqn:EH.
       { apply str_eqb_eq in EH.
         assert (Hm : one_of n map_names = true) by (rewrite EH; reflexivity).
         destruct (Har2 Hm) as [|(k & v & E & Hmk)]; [discriminate|]. inversion E; subst k rest.
-        destruct (Hmapcase v eq_refl Hmk) as [Hs Hv]. rewrite Hs, HIa, Hv.
+        destruct (Hmapcase v eq_refl) as [Hs Hv]. rewrite Hs, HIa, Hv.
         rewrite sem_path_cons. unfold is_name. rewrite EO, ER, EV.
         replace (str_eqb n (L "HashMap")) with true by (symmetry; apply str_eqb_eq; exact EH). reflexivity. }
       destruct (str_eqb n (L "BTreeMap")) eqn:EB.
       { apply str_eqb_eq in EB.
         assert (Hm : one_of n map_names = true) by (rewrite EB; reflexivity).
         destruct (Har2 Hm) as [|(k & v & E & Hmk)]; [discriminate|]. inversion E; subst k rest.
-        destruct (Hmapcase v eq_refl Hmk) as [Hs Hv]. rewrite Hs, HIa, Hv.
+        destruct (Hmapcase v eq_refl) as [Hs Hv]. rewrite Hs, HIa, Hv.
         rewrite sem_path_cons. unfold is_name. rewrite EO, ER, EV, EH.
         replace (str_eqb n (L "BTreeMap")) with true by (symmetry; apply str_eqb_eq; exact EB). reflexivity. }
       destruct (str_eqb n (L "HashSet")) eqn:ES.
@@ -419,14 +496,12 @@ Proof.
       rewrite tts_path_cons. reflexivity.
   - (* ref *)
     rewrite tts_ref. cbn [L list_ascii_of_string starts Ascii.eqb Bool.eqb andb skipn].
-    simpl in Hw, Hkr, Hkt, Hf. apply IH; auto. lia.
+    simpl in Hw, Hf. apply IH; auto. lia.
   - (* tuple *)
-    simpl in Hw, Hkr, Hkt. apply wf_list in Hw.
+    simpl in Hw. apply wf_list in Hw.
     destruct l as [|a l].
     + reflexivity.
     + rewrite tts_tuple. set (J := join (L ", ") (map tts (a :: l))).
-      apply orb_false_elim in Hkt as [Hmul Hkt]. apply existsb_false_Forall in Hmul.
-      apply existsb_false_Forall in Hkt. apply existsb_false_Forall in Hkr.
       assert (Hends : ends_with ")" ("(" :: J ++ [")"]) = true).
       { change ("(" :: J ++ [")"]) with (("(" :: J) ++ [")"]). apply ends_with_snoc. }
       assert (Hend2 : ends_with ">" ("(" :: J ++ [")"]) = false).
@@ -444,11 +519,12 @@ Proof.
         destruct l; [simpl map; rewrite join_one | change (map tts (a :: r0 :: l)) with (tts a :: tts r0 :: map tts l); rewrite join_cons2];
           rewrite E; simpl; simpl in Ht; destruct (is_space x); auto; exfalso;
           pose proof (trim_l_len r) as Hlen; rewrite Ht in Hlen; simpl in Hlen; lia. }
-      rewrite Hnb. unfold J, split_naive.
-      assert (Hnc : Forall nocomma (map tts (a :: l))).
-      { rewrite Forall_forall in *. intros w Hwin. apply in_map_iff in Hwin as (x & <- & Hx). apply multi_nocomma; auto. }
-      change (map tts (a :: l)) with (tts a :: map tts l) in *. inversion Hnc; subst.
-      rewrite split_naive_join by auto. simpl rev. simpl app. cbn [map].
+      rewrite Hnb. unfold J.
+      assert (Htp : Forall (transp 0) (map tts (a :: l))).
+      { apply Forall_forall. intros w Hwin. apply in_map_iff in Hwin as (x & <- & Hx). apply tts_transp.
+        rewrite Forall_forall in Hw. auto. }
+      change (map tts (a :: l)) with (tts a :: map tts l) in *. inversion Htp; subst.
+      rewrite split_top_level_join by auto. cbn [map].
       assert (Hwa : wf a) by (inversion Hw; auto).
       assert (Hwl : Forall wf l) by (inversion Hw; auto).
       rewrite trim_tight by (apply tts_tight; auto).
